@@ -15,53 +15,134 @@ def lstr(s):
     return '"' + s.replace("\\", "\\\\").replace('"', '\\"').replace("\n", "\\n").replace("\t", "\\t").replace("\r", "\\r") + '"'
 
 
+UNAVAILABLE = []   # tables the translator could not read off the working tree in this run
+
+
+def _tables():
+    """(lean name, lean type, doc, thunk -> lean literal); every thunk imports what it needs itself"""
+    def quirk_values():
+        from pyp0f.net.quirks import Quirk
+        return "[" + ", ".join(f"({lstr(q.name)}, {q.value})" for q in Quirk) + "]"
+
+    def quirk_strings():
+        from pyp0f.net.quirks import QUIRK_STRINGS
+        return "[" + ", ".join(f"({k.value}, {lstr(v)})" for k, v in QUIRK_STRINGS.items()) + "]"
+
+    def option_values():
+        from pyp0f.net.layers.tcp.options import TCPOption
+        return "[" + ", ".join(f"({lstr(m.name)}, {int(m)})" for m in sorted(TCPOption, key=int)) + "]"
+
+    def option_strings():
+        from pyp0f.net.layers.tcp.options import OPTION_STRINGS
+        return "[" + ", ".join(f"({int(k)}, {lstr(v)})" for k, v in sorted(OPTION_STRINGS.items(), key=lambda kv: int(kv[0]))) + "]"
+
+    def option_sizes():
+        from pyp0f.net.layers.tcp.options import OPTION_FORMATS
+        return "[" + ", ".join(f"({int(k)}, {v.size})" for k, v in sorted(OPTION_FORMATS.items(), key=lambda kv: int(kv[0]))) + "]"
+
+    def tcp_flags():
+        from pyp0f.net.layers.tcp import TCPFlag
+        return "[" + ", ".join(f"({lstr(m.name)}, {int(m)})" for m in sorted(TCPFlag, key=int)) + "]"
+
+    def min_tcp4():
+        from pyp0f.net.layers.tcp import MIN_TCP4
+        return str(int(MIN_TCP4))
+
+    def min_tcp6():
+        from pyp0f.net.layers.tcp import MIN_TCP6
+        return str(int(MIN_TCP6))
+
+    def wildcard():
+        from pyp0f.database.parse.wildcard import WILDCARD
+        return str(int(WILDCARD))
+
+    def wildcard_field():
+        from pyp0f.database.parse.wildcard import _WILDCARD_FIELD
+        return lstr(_WILDCARD_FIELD)
+
+    def invalid_quirks():
+        from pyp0f.database.signatures import tcp as ST
+        return "[" + ", ".join(f"({k}, {v.value})" for k, v in sorted(ST._INVALID_QUIRKS.items())) + "]"
+
+    def skipped_params():
+        from pyp0f.database.parse import parser as P
+        return "[" + ", ".join(lstr(x) for x in sorted(P.SKIPPED_PARAMS)) + "]"
+
+    def skipped_lines():
+        from pyp0f.database.parse import parser as P
+        return "[" + ", ".join(lstr(x) for x in sorted(P.SKIPPED_LINES)) + "]"
+
+    def directions():
+        from pyp0f.net.packet import Direction
+        return "[" + ", ".join(lstr(d.name) for d in Direction) + "]"
+
+    def opt(attr):
+        def f():
+            from pyp0f.options import Options
+            return str(int(getattr(Options(), attr)))
+        return f
+
+    def scale(attr):
+        def f():
+            from fractions import Fraction
+            from pyp0f.options import Options
+            v = Fraction(str(getattr(Options(), attr)))
+            return f"({v.numerator}, {v.denominator})"
+        return f
+
+    return [
+        ("quirkValues", "List (String × Nat)", "`Quirk` members: (name, value), declaration order", quirk_values),
+        ("quirkStrings", "List (Nat × String)", "`QUIRK_STRINGS` in dict order (the order `dump_quirks` prints): (value, text)", quirk_strings),
+        ("optionValues", "List (String × Nat)", "`TCPOption` members sorted by value", option_values),
+        ("optionStrings", "List (Nat × String)", "`OPTION_STRINGS` sorted by key", option_strings),
+        ("optionSizes", "List (Nat × Nat)", "`OPTION_FORMATS` payload sizes sorted by key", option_sizes),
+        ("tcpFlags", "List (String × Nat)", None, tcp_flags),
+        ("minTcp4", "Nat", None, min_tcp4),
+        ("minTcp6", "Nat", None, min_tcp6),
+        ("wildcard", "Int", None, wildcard),
+        ("wildcardField", "String", None, wildcard_field),
+        ("invalidQuirks", "List (Nat × Nat)", None, invalid_quirks),
+        ("skippedParams", "List String", None, skipped_params),
+        ("skippedLines", "List String", None, skipped_lines),
+        ("directions", "List String", None, directions),
+        ("maxDist", "Int", None, opt("max_dist")),
+        ("minWait", "Int", None, opt("min_timestamp_wait")),
+        ("maxWait", "Int", None, opt("max_timestamp_wait")),
+        ("grace", "Int", None, opt("timestamp_grace")),
+        ("minScale", "Nat × Nat", None, scale("min_timestamp_scale")),
+        ("maxScale", "Nat × Nat", None, scale("max_timestamp_scale")),
+    ]
+
+
 def render():
+    """A table whose source constant is no longer there (renamed, inlined, re-shaped by a refactoring)
+    cannot be translated; it is then *aliased* to the expected one and listed in UNAVAILABLE: the
+    translator tie is reported as not available for it and the differential correspondence is the
+    tie that remains (the runner writes this into the evidence)."""
     repo = os.environ.get("PYP0F_REPO", "/repo")
     if repo not in sys.path:
         sys.path.insert(0, repo)
-    from pyp0f.net.quirks import QUIRK_STRINGS, Quirk
-    from pyp0f.net.layers.tcp.options import OPTION_STRINGS, OPTION_FORMATS, TCPOption
-    from pyp0f.net.layers.tcp import MIN_TCP4, MIN_TCP6, TCPFlag
-    from pyp0f.database.parse.wildcard import WILDCARD, _WILDCARD_FIELD
-    from pyp0f.database.parse import parser as P
-    from pyp0f.database.signatures import tcp as ST
-    from pyp0f.options import Options
-    from pyp0f.net.packet import Direction
-
-    o = Options()
+    del UNAVAILABLE[:]
     L = []
+    L.append("import P0f.Expected")
     L.append("/- GENERATED by harness/gen_tables.py from the pyp0f working tree - do not edit -/")
     L.append("namespace P0f.Generated")
     L.append("")
-    L.append("/-- `Quirk` members: (name, value), declaration order -/")
-    L.append("def quirkValues : List (String × Nat) := [" + ", ".join(f"({lstr(q.name)}, {q.value})" for q in Quirk) + "]")
-    L.append("/-- `QUIRK_STRINGS` in dict order (the order `dump_quirks` prints): (value, text) -/")
-    L.append("def quirkStrings : List (Nat × String) := [" + ", ".join(f"({k.value}, {lstr(v)})" for k, v in QUIRK_STRINGS.items()) + "]")
-    L.append("/-- `TCPOption` members sorted by value -/")
-    L.append("def optionValues : List (String × Nat) := [" + ", ".join(f"({lstr(m.name)}, {int(m)})" for m in sorted(TCPOption, key=int)) + "]")
-    L.append("/-- `OPTION_STRINGS` sorted by key -/")
-    L.append("def optionStrings : List (Nat × String) := [" + ", ".join(f"({int(k)}, {lstr(v)})" for k, v in sorted(OPTION_STRINGS.items(), key=lambda kv: int(kv[0]))) + "]")
-    L.append("/-- `OPTION_FORMATS` payload sizes sorted by key -/")
-    L.append("def optionSizes : List (Nat × Nat) := [" + ", ".join(f"({int(k)}, {v.size})" for k, v in sorted(OPTION_FORMATS.items(), key=lambda kv: int(kv[0]))) + "]")
-    L.append("def tcpFlags : List (String × Nat) := [" + ", ".join(f"({lstr(m.name)}, {int(m)})" for m in sorted(TCPFlag, key=int)) + "]")
-    L.append(f"def minTcp4 : Nat := {MIN_TCP4}")
-    L.append(f"def minTcp6 : Nat := {MIN_TCP6}")
-    L.append(f"def wildcard : Int := {WILDCARD}")
-    L.append(f"def wildcardField : String := {lstr(_WILDCARD_FIELD)}")
-    L.append("def invalidQuirks : List (Nat × Nat) := [" + ", ".join(f"({k}, {v.value})" for k, v in sorted(ST._INVALID_QUIRKS.items())) + "]")
-    L.append("def skippedParams : List String := [" + ", ".join(lstr(x) for x in sorted(P.SKIPPED_PARAMS)) + "]")
-    L.append("def skippedLines : List String := [" + ", ".join(lstr(x) for x in sorted(P.SKIPPED_LINES)) + "]")
-    L.append("def directions : List String := [" + ", ".join(lstr(d.name) for d in Direction) + "]")
-    L.append(f"def maxDist : Int := {o.max_dist}")
-    L.append(f"def minWait : Int := {o.min_timestamp_wait}")
-    L.append(f"def maxWait : Int := {o.max_timestamp_wait}")
-    L.append(f"def grace : Int := {o.timestamp_grace}")
-    from fractions import Fraction
-    mn = Fraction(str(o.min_timestamp_scale)); mx = Fraction(str(o.max_timestamp_scale))
-    L.append(f"def minScale : Nat × Nat := ({mn.numerator}, {mn.denominator})")
-    L.append(f"def maxScale : Nat × Nat := ({mx.numerator}, {mx.denominator})")
+    for name, ty, doc, thunk in _tables():
+        try:
+            lit = thunk()
+        except (AttributeError, ImportError, KeyError, TypeError, ValueError) as e:  # the constant is not there any more
+            if isinstance(e, ModuleNotFoundError) and not (e.name or "").startswith("pyp0f"):
+                raise  # a missing third-party module is a broken environment, not a re-shaped source
+            UNAVAILABLE.append(f"{name}: {type(e).__name__}: {e}")
+            lit = f"P0f.Expected.{name}   -- NOT TRANSLATED: {type(e).__name__}"
+        if doc:
+            L.append(f"/-- {doc} -/")
+        L.append(f"def {name} : {ty} := {lit}")
     L.append("")
     L.append("end P0f.Generated")
+    if len(UNAVAILABLE) > len(_tables()) // 2:
+        raise RuntimeError("pyp0f cannot be imported from the working tree: " + "; ".join(UNAVAILABLE[:3]))
     return "\n".join(L) + "\n"
 
 
